@@ -560,6 +560,11 @@ func TestCoord(t *testing.T) {
 	if id == "" {
 		t.Skip("coordinator mode only (VCHECK unset)")
 	}
+	if os.Getenv("VTIER") == "replay" {
+		code := replayMain(id, os.Getenv("VREPLAY"))
+		os.Stdout.Sync()
+		os.Exit(code)
+	}
 	f := checks[id]
 	if f == nil {
 		fmt.Fprintln(os.Stderr, "no such check:", id)
@@ -569,3 +574,84 @@ func TestCoord(t *testing.T) {
 	os.Stdout.Sync()
 	os.Exit(code)
 }
+
+// replayMain re-executes one recorded violation (or any history / job file of the same shape) without search.
+func replayMain(prop, path string) int {
+	b, err := os.ReadFile(path)
+	if err != nil {
+		fmt.Fprintln(os.Stderr, err)
+		return 2
+	}
+	var rec struct {
+		Rule   string `json:"rule"`
+		Detail string `json:"detail"`
+		Replay struct {
+			Scenario string          `json:"scenario"`
+			Cfg      json.RawMessage `json:"cfg"`
+			Supis    []string        `json:"supis"`
+			Ops      json.RawMessage `json:"ops"`
+			Oracle   string          `json:"oracle"`
+			Job      json.RawMessage `json:"job"`
+			Kind     string          `json:"kind"`
+			Case     string          `json:"case"`
+		} `json:"replay"`
+	}
+	if err := json.Unmarshal(b, &rec); err != nil {
+		fmt.Fprintln(os.Stderr, err)
+		return 2
+	}
+	pool := NewPool(1)
+	var job Job
+	switch {
+	case rec.Replay.Ops != nil:
+		orc := rec.Replay.Oracle
+		if orc == "" {
+			orc = prop
+		}
+		job = Job{Kind: "hist", Args: mustJSON(map[string]any{"cfg": rec.Replay.Cfg, "supis": rec.Replay.Supis, "ops": rec.Replay.Ops, "oracle": orc, "all": os.Getenv("VREPLAY_ALL") != ""})}
+	case rec.Replay.Job != nil:
+		kind := rec.Replay.Kind
+		if kind == "" {
+			kind = replayKinds[prop]
+		}
+		job = Job{Kind: kind, Args: rec.Replay.Job}
+	default:
+		fmt.Fprintln(os.Stderr, "replay file has neither ops nor job")
+		return 2
+	}
+	r := pool.RunAll([]Job{job})[0]
+	fmt.Printf("recorded: rule=%s %s\n", rec.Rule, oneLine(rec.Detail, 300))
+	if r.Crash != "" || r.Err != "" {
+		fmt.Printf("replay: crash=%q err=%q\n", oneLine(r.Crash, 500), r.Err)
+		return 1
+	}
+	var pretty map[string]any
+	json.Unmarshal(r.Out, &pretty)
+	finds, _ := pretty["finds"].([]any)
+	hit := 0
+	for _, f := range finds {
+		m, _ := f.(map[string]any)
+		mark := " "
+		if m["rule"] == rec.Rule {
+			mark = "*"
+			hit++
+		}
+		fmt.Printf("%s rule=%v %s\n", mark, m["rule"], oneLine(fmt.Sprint(m["detail"]), 500))
+	}
+	if last, ok := pretty["last"]; ok && os.Getenv("VREPLAY_VERBOSE") != "" {
+		lb, _ := json.MarshalIndent(last, "", " ")
+		fmt.Println(string(lb))
+	}
+	if dl, ok := pretty["deadlock"]; ok && dl != nil {
+		fmt.Println("blocked forever:", dl)
+		hit++
+	}
+	if hit > 0 || len(finds) > 0 {
+		fmt.Printf("VIOLATION property=%s replay=%s\n", prop, path)
+		return 1
+	}
+	fmt.Println("replay: no finding reproduced")
+	return 0
+}
+
+var replayKinds = map[string]string{"C04": "ber", "C05": "ber", "C16": "c16", "C14": "cdrfile", "C15": "cdrfile"}
